@@ -2,13 +2,25 @@
 
 Encoder side: PduHeader(...).pack() == 001 t d m c l | len16 | s www f www | src | seq | dst (ref/cfdp.py), header_len,
 packet_len, PduConfig.header_len(), header_len_from_raw; decoder side: PduHeader.unpack returns every value and width;
-refusals: ID widths that differ, data field length > 65535, version != 1, width code not in {1,2,4,8}."""
+refusals: ID widths that differ, data field length > 65535, version != 1, width code not in {1,2,4,8}.
+
+The property speaks about the header's CURRENT values ("for every ... value the packed header is ...; its length is ..."),
+however the object got them.  Two further engines therefore drive the same reference encoder:
+
+* histories (explicit-state exploration, DESIGN.md 2.3): every sequence of <= depth actions over the public mutators of
+  PduHeader interleaved with its observers, from a constructed and from a decoded start state; a plain dict is the model,
+  ref/cfdp.header(model) the oracle at every observer action and at the end of every history (a length / header image that
+  is cached and invalidated by some setters only, or only goes stale when it was read before the setter, shows here);
+* independence (mc.alias.Keeper): every result the library hands out (constructed header, decoded header, the pack() result)
+  is a value - it is re-observed after the library has been used on other headers (a shared template configuration, a
+  flyweight decode cache, a shared output buffer, a decoded header that aliases the caller's buffer show here)."""
 
 from __future__ import annotations
 
 import itertools
 
 from mc import domains as D
+from mc.alias import Keeper
 from mc.rec import Rec
 from ref import cfdp as R
 from units import cfdp_pdu as U
@@ -48,6 +60,13 @@ def _n(tier):
     return 4096 if tier == "quick" else 65536
 
 
+def _depth(tier):
+    return 3 if tier == "quick" else 4
+
+
+HISTORY_STARTS = ("ctor", "unpack")
+
+
 def recipe_of(flags, idw, seqw, dlen, src=None, seq=None, dst=None):
     t, d, m, c, l, sc, sm = flags
     cfg = {"crc": c, "large": l, "idw": idw, "seqw": seqw, "mode": m, "segctrl": sc, "ptype": t, "dir": d, "segmeta": sm}
@@ -71,19 +90,29 @@ def background(j):
     return flags, idw, seqw, dlen, id_background(j, idw), id_background(j, seqw), id_background(j + 1, idw) if j else None
 
 
+_SINK = None  # list collecting the objects the library handed out during one evaluate_header (independence oracle)
+
+
+def obs_header(h):
+    """everything a header object says about itself, by value (copies)"""
+    return (U.header_obs(h), int(h.pdu_data_field_len), bytes(h.pack()), int(h.header_len), int(h.packet_len))
+
+
 def evaluate_header(u, recipe, via="class", encode_side=True):
     r = U.norm(recipe)
     cfg, p = r["cfg"], r["params"]
     ref = R.encode_header(cfg, p)
     hlen = 4 + 2 * cfg["idw"] + cfg["seqw"]
     assert len(ref) == hlen
+    sink = _SINK if _SINK is not None else []
     try:
         conf = U.pdu_config(cfg, cfg.get("dir", 0))
         h = U.L.PduHeader(U.L.PduType(cfg.get("ptype", 0)), U.L.SegmentMetadataFlag(cfg.get("segmeta", 0)), p["dlen"], conf)
     except Exception as e:
         return U.Failure("encode", "PduHeader.__init__", "exception", repr(e), ref)
     try:
-        raw = bytes(h.pack())
+        packed = h.pack()
+        raw = bytes(packed)
     except Exception as e:
         return U.Failure("encode", "PduHeader.pack", "exception", repr(e), ref)
     if raw != ref:
@@ -92,44 +121,82 @@ def evaluate_header(u, recipe, via="class", encode_side=True):
     if lens != (hlen, hlen + p["dlen"], hlen, hlen):
         return U.Failure("length", "PduHeader.header_len", "header_len/packet_len/PduConfig.header_len/header_len_from_raw", lens,
                          (hlen, hlen + p["dlen"], hlen, hlen))
+    sink.append(("PduHeader.__init__", h, obs_header))
+    sink.append(("PduHeader.pack", packed, bytes))
     exp = u._exp(cfg, p)
-    for what, data in (("", ref + TAIL), ("-exact-buffer", ref)):
+    # the decoder is handed bytes with a tail, bytes that end with the header, and the bytearray pack() itself returns (the
+    # round trip unpack(pack()) of the property); the caller's bytearray is overwritten after the call: what was decoded
+    # are values, not a view of the caller's buffer
+    for what, data in (("", ref + TAIL), ("-exact-buffer", ref), ("-bytearray", bytearray(ref + TAIL[:2]))):
         try:
             d = U.L.PduHeader.unpack(data)
         except Exception as e:
             return U.Failure("decode", "PduHeader.unpack", "refused" + what, repr(e), exp)
+        pre = ""
+        if what == "-bytearray":
+            pre = "bytearray-input-overwritten-after-the-call/"
+            for i in range(len(data)):
+                data[i] ^= 0xFF
         obs = u.observe(d)
         if obs != exp:
             names = U.HEADER_FIELDS + ["data_field_len"]
             diff = [names[i] for i in range(len(exp)) if obs[i] != exp[i]]
-            return U.Failure("decode", "PduHeader.unpack", "fields=" + "+".join(diff), obs, exp)
+            return U.Failure("decode", "PduHeader.unpack", pre + "fields=" + "+".join(diff), obs, exp)
         lens = (int(d.header_len), int(d.packet_len))
         if lens != (hlen, hlen + p["dlen"]):
-            return U.Failure("decode", "PduHeader.unpack", "decoded-length", lens, (hlen, hlen + p["dlen"]))
+            return U.Failure("decode", "PduHeader.unpack", pre + "decoded-length", lens, (hlen, hlen + p["dlen"]))
         try:
             again = bytes(d.pack())
         except Exception as e:
-            return U.Failure("decode", "PduHeader.unpack", "repack", repr(e), ref)
+            return U.Failure("decode", "PduHeader.unpack", pre + "repack", repr(e), ref)
         if again != ref:
-            return U.Failure("decode", "PduHeader.unpack", "repack", again, ref)
+            return U.Failure("decode", "PduHeader.unpack", pre + "repack", again, ref)
+        if what != "-exact-buffer":
+            sink.append(("PduHeader.unpack", d, obs_header))
     return None
 
 
-def header_case(rec, seen, recipe, dup=False):
-    """dup: the same header is also produced by the 'flags' job (counted as executed, not as distinct)"""
+KEEP = 4  # results handed out per header case (constructed header, its pack() result, two decoded headers)
+
+
+def header_case(rec, seen, recipe, dup=False, keeper=None):
+    """dup: the same header is also produced by the 'flags' job (counted as executed, not as distinct).
+    keeper: the results of this case are held and re-observed after the next case(s) of the enumeration"""
+    global _SINK
     key = (tuple(sorted(recipe["cfg"].items())), recipe["params"]["dlen"])
     fresh = key not in seen and not dup
     seen.add(key)
-    rec.case(fresh, ops=12)
-    return U.judge(rec, PROPERTY, None, unit, recipe, "class", True, evaluate_header)
+    rec.case(fresh, ops=15)
+    _SINK = [] if keeper is not None else None
+    try:
+        ok = U.judge(rec, PROPERTY, None, unit, recipe, "class", True, evaluate_header)
+        got = _SINK
+    finally:
+        _SINK = None
+    if keeper is not None:
+        case = {"kind": "pdu", "unit": "PduHeader", "via": "class", "enc": True, "recipe": recipe}
+        keeper.recheck(case)  # the earlier cases' results, after this case's library calls
+        if ok:
+            for subject, obj, observe in got[:KEEP]:
+                keeper.hold(subject, obj, observe, case)
+    return ok
 
 
 def documented():
     return (ValueError, U.L.UnsupportedCfdpVersion)
 
 
-def check_decode_pair(rec, o0, o3):
+def check_decode_pair(rec, o0, o3, keeper=None):
     """every fixed part: octet 0 (version, flags) and octet 3 (width codes, flags) in front of a long tail"""
+    if keeper is not None:
+        try:
+            return _check_decode_pair(rec, o0, o3, keeper)
+        finally:
+            keeper.recheck({"kind": "pair", "o0": o0, "o3": o3})
+    return _check_decode_pair(rec, o0, o3, None)
+
+
+def _check_decode_pair(rec, o0, o3, keeper):
     raw = bytes([o0, 0x12, 0x34, o3]) + TAIL
     rec.case(True, ops=2)
     case = {"kind": "pair", "o0": o0, "o3": o3}
@@ -161,6 +228,8 @@ def check_decode_pair(rec, o0, o3):
     if (d.header_len, d.packet_len, U.L.PduHeader.header_len_from_raw(raw)) != (4 + 2 * idw + seqw, 4 + 2 * idw + seqw + 0x1234, 4 + 2 * idw + seqw):
         rec.violation("C05.decode/PduHeader.unpack/decoded-length-of-fixed-part", case, (d.header_len, d.packet_len), 4 + 2 * idw + seqw)
     rec.outcome(f"decoded:idw={idw}:seqw={seqw}")
+    if keeper is not None:
+        keeper.hold("PduHeader.unpack", d, obs_header, case)
 
 
 REFUSALS = ["ctor-widths", "set_entity_ids-widths", "ctor-dlen", "setter-dlen"]
@@ -207,6 +276,324 @@ def id_sweep_values(width):
     return D.dedupe(vals)
 
 
+# ------------------------------------------------------------------------------------------------ histories
+# model = plain dict of the header's current values; the oracle is ref/cfdp.header(model) at every observer.
+MODEL_KEYS = ("ptype", "dir", "mode", "crc", "large", "segctrl", "segmeta", "idw", "seqw", "src", "seq", "dst", "dlen")
+FLAG_SETTERS = [  # public attribute of PduHeader, model key, enum class name
+    ("pdu_type", "ptype", "PduType"), ("direction", "dir", "Direction"), ("transmission_mode", "mode", "TransmissionMode"),
+    ("crc_flag", "crc", "CrcFlag"), ("file_flag", "large", "LargeFileFlag"), ("seg_ctrl", "segctrl", "SegmentationControl"),
+    ("segment_metadata_flag", "segmeta", "SegmentMetadataFlag"),
+]
+CONF_FLAGS = [  # public field of PduConfig (reachable as header.pdu_conf), model key, enum class name
+    ("direction", "dir", "Direction"), ("trans_mode", "mode", "TransmissionMode"), ("crc_flag", "crc", "CrcFlag"),
+    ("file_flag", "large", "LargeFileFlag"), ("seg_ctrl", "segctrl", "SegmentationControl"),
+]
+OBSERVERS = ["header_len", "packet_len", "pack", "conf.header_len", "fields"]
+DLEN_VALUES = (0x1234, 0xFEDC)
+
+
+def _idval(first_octet, width):
+    return int.from_bytes(bytes(range(first_octet, first_octet + width)), "big")
+
+
+def _next_width(w):
+    return WIDTHS[(WIDTHS.index(w) + 1) % 4]
+
+
+def actions():
+    """the action alphabet in a fixed order, simplest first: observers, the header's own mutators (each width, each flag,
+    accepted and refused arguments), then writes through objects the header hands out (its pdu_conf, its field objects)"""
+    out = list(OBSERVERS)
+    out += [f"set_entity_ids:{w}" for w in WIDTHS]
+    out += [f"transaction_seq_num:{w}" for w in WIDTHS]
+    out += [f"pdu_data_field_len:{v}" for v in DLEN_VALUES]
+    out += [f"flip:{name}" for name, _, _ in FLAG_SETTERS]
+    out += [f"set_entity_ids-mixed:{w}" for w in WIDTHS]
+    out += ["pdu_data_field_len:65536"]
+    out += [f"pdu_conf.ids:{w}" for w in WIDTHS]
+    out += [f"pdu_conf.transaction_seq_num:{w}" for w in WIDTHS]
+    out += [f"pdu_conf.flip:{name}" for name, _, _ in CONF_FLAGS]
+    out += ["source_entity_id.value", "transaction_seq_num.value", "dest_entity_id.value"]
+    return out
+
+
+ACTIONS = actions()
+
+
+def family(action):
+    """coarse name of an action for signatures (the argument dropped)"""
+    return action.split(":")[0] if not action.startswith(("flip:", "pdu_conf.flip:")) else action.replace("flip:", "")
+
+
+def start_model(bg):
+    fl, idw, seqw, dlen, src, seq, dst = background(bg)
+    rc = recipe_of(fl, idw, seqw, dlen, src, seq, dst)
+    cfg = U.norm(rc)["cfg"]
+    s, q, d = R.cfg_ids(cfg)
+    m = {"ptype": cfg["ptype"], "dir": cfg["dir"], "mode": cfg["mode"], "crc": cfg["crc"], "large": cfg["large"],
+         "segctrl": cfg["segctrl"], "segmeta": cfg["segmeta"], "idw": idw, "seqw": seqw, "src": s, "seq": q, "dst": d, "dlen": dlen}
+    return rc, m
+
+
+_REF_CACHE = {}
+
+
+def model_ref(m):
+    key = tuple(m[k] for k in MODEL_KEYS)
+    r = _REF_CACHE.get(key)
+    if r is None:
+        if len(_REF_CACHE) > 200000:
+            _REF_CACHE.clear()
+        r = _REF_CACHE[key] = R.header(m["ptype"], m["dir"], m["mode"], m["crc"], m["large"], m["dlen"], m["segctrl"], m["idw"],
+                                       m["segmeta"], m["seqw"], m["src"], m["seq"], m["dst"])
+    return r
+
+
+def model_fields(m):
+    return (m["ptype"], m["dir"], m["mode"], m["crc"], m["large"], m["segctrl"], m["segmeta"], m["src"], m["idw"], m["seq"],
+            m["seqw"], m["dst"], m["idw"], m["dlen"])
+
+
+FIELD_TO_KEY = ("ptype", "dir", "mode", "crc", "large", "segctrl", "segmeta", "src", "idw", "seq", "seqw", "dst", "idw", "dlen")
+
+
+class Stop(Exception):
+    """a history ends at its first disagreement: (signature, observed, expected)"""
+
+
+def observe_action(h, m, name, held):
+    """execute one observer on the implementation and compare with the model; returns None or (observed, expected)"""
+    hlen = 4 + 2 * m["idw"] + m["seqw"]
+    if name == "header_len":
+        got, exp = int(h.header_len), hlen
+    elif name == "packet_len":
+        got, exp = int(h.packet_len), hlen + m["dlen"]
+    elif name == "conf.header_len":
+        got, exp = int(h.pdu_conf.header_len()), hlen
+    elif name == "fields":
+        got, exp = unit.observe(h), model_fields(m)
+    else:
+        res = h.pack()
+        raw = bytes(res)
+        held.append((res, raw))
+        got, exp = (raw, int(U.L.PduHeader.header_len_from_raw(raw + TAIL))), (model_ref(m), hlen)
+    return None if got == exp else (got, exp)
+
+
+def mutate(h, m, name, rec):
+    """execute one mutator on the implementation and on the model.  Raises Stop on a wrong refusal / acceptance."""
+    gen = U.L.ByteFieldGenerator.from_int
+    fam, _, arg = name.partition(":")
+    refused = None
+    try:
+        if fam == "set_entity_ids":
+            w = int(arg)
+            new = {"idw": w, "src": _idval(0x21, w), "dst": _idval(0xB1, w)}
+            h.set_entity_ids(gen(w, new["src"]), gen(w, new["dst"]))
+        elif fam == "set_entity_ids-mixed":
+            w = int(arg)
+            new, refused = {}, "set_entity_ids"
+            h.set_entity_ids(gen(w, _idval(0x21, w)), gen(_next_width(w), _idval(0xB1, _next_width(w))))
+        elif fam == "transaction_seq_num":
+            w = int(arg)
+            new = {"seqw": w, "seq": _idval(0x81, w)}
+            h.transaction_seq_num = gen(w, new["seq"])
+        elif fam == "pdu_data_field_len":
+            v = int(arg)
+            new = {"dlen": v} if v <= 0xFFFF else {}
+            refused = None if v <= 0xFFFF else "pdu_data_field_len"
+            h.pdu_data_field_len = v
+        elif fam == "flip":
+            attr, key, enum = next(x for x in FLAG_SETTERS if x[0] == arg)
+            new = {key: 1 - m[key]}
+            setattr(h, attr, getattr(U.L, enum)(new[key]))
+        else:
+            raise AssertionError(name)
+    except ValueError as e:
+        if refused is None:
+            raise Stop(f"C05.history/PduHeader.{family(name)}/refused-valid-argument", repr(e), "accepted")
+        rec.outcome(f"history-refused:{fam}")
+        return
+    except Exception as e:
+        if isinstance(e, AssertionError):
+            raise
+        raise Stop(f"C05.{'refuse' if refused else 'history'}/PduHeader.{family(name)}/undocumented-exception/{type(e).__name__}", repr(e),
+                   "ValueError" if refused else "accepted")
+    if refused is not None:
+        raise Stop(f"C05.refuse/PduHeader.{refused}/accepted-in-history", "no exception", "ValueError")
+    m.update(new)
+
+
+def backdoor(h, m, name, rec):
+    """write through an object the header hands out (header.pdu_conf, a field object).  Whether such a write reaches the
+    header is the library's design decision, not the property's: afterwards every field the header reports must be the old
+    or the new value, the model takes what the header reports - and everything else (lengths, octets) must agree with THAT."""
+    gen = U.L.ByteFieldGenerator.from_int
+    fam, _, arg = name.partition(":")
+    new = {}
+    try:
+        if fam == "pdu_conf.ids":
+            w = int(arg)
+            new = {"idw": w, "src": _idval(0x31, w), "dst": _idval(0xC1, w)}
+            h.pdu_conf.source_entity_id = gen(w, new["src"])
+            h.pdu_conf.dest_entity_id = gen(w, new["dst"])
+        elif fam == "pdu_conf.transaction_seq_num":
+            w = int(arg)
+            new = {"seqw": w, "seq": _idval(0x91, w)}
+            h.pdu_conf.transaction_seq_num = gen(w, new["seq"])
+        elif fam == "pdu_conf.flip":
+            attr, key, enum = next(x for x in CONF_FLAGS if x[0] == arg)
+            new = {key: 1 - m[key]}
+            setattr(h.pdu_conf, attr, getattr(U.L, enum)(new[key]))
+        else:
+            attr, key = {"source_entity_id.value": ("source_entity_id", "src"), "transaction_seq_num.value": ("transaction_seq_num", "seq"),
+                         "dest_entity_id.value": ("dest_entity_id", "dst")}[name]
+            new = {key: m[key] ^ 1}
+            getattr(h, attr).value = new[key]
+    except Exception as e:  # noqa: BLE001 - a library that does not offer this write path is not wrong
+        rec.outcome(f"history-backdoor-not-offered:{fam}:{type(e).__name__}")
+        new = {}
+    got = unit.observe(h)
+    old = model_fields(m)
+    for i, key in enumerate(FIELD_TO_KEY):
+        if got[i] != old[i] and got[i] != new.get(key, old[i]):
+            raise Stop(f"C05.history/PduHeader.fields/neither-old-nor-new/after={family(name)}", got, old)
+    if got[8] != got[12]:
+        raise Stop(f"C05.history/PduHeader.fields/id-widths-differ/after={family(name)}", got, old)
+    for i, key in enumerate(FIELD_TO_KEY):
+        m[key] = got[i]
+
+
+def start_object(start, rc, ref):
+    if start == "ctor":
+        return unit.build(rc)
+    if start == "unpack":
+        return U.L.PduHeader.unpack(ref + TAIL)
+    raise AssertionError(start)
+
+
+def run_history(rec, start, bg, hist, rc, m0, ref0):
+    """one history from a fresh object; returns the number of actions executed"""
+    case = {"kind": "history", "start": start, "bg": bg, "actions": list(hist)}
+    m = dict(m0)
+    held = []
+    last = "none"
+    step = None
+    try:
+        h = start_object(start, rc, ref0)
+        for step in tuple(hist) + tuple(OBSERVERS[2:]) + tuple(OBSERVERS[:2]):  # the history, then one full observation
+            if step in OBSERVERS:
+                bad = observe_action(h, m, step, held)
+                if bad is not None:
+                    raise Stop(f"C05.history/PduHeader.{step}/disagrees-with-reference/after={last}", bad[0], bad[1])
+            elif step.startswith(("pdu_conf.", "source_entity_id.", "transaction_seq_num.value", "dest_entity_id.")):
+                backdoor(h, m, step, rec)
+                last = family(step)
+            else:
+                mutate(h, m, step, rec)
+                last = family(step)
+        for res, snap in held:  # every pack() result handed out during the history is still what it was
+            if bytes(res) != snap:
+                raise Stop("C05.independence/PduHeader.pack/result-changed-by-a-later-call", bytes(res), snap)
+    except Stop as s:
+        sig, got, exp = s.args
+        rec.violation(sig, case, got, exp, note=f"history-dependent: first disagreement at action {step!r}; model={m}")
+    except AssertionError:
+        raise
+    except Exception as e:  # noqa: BLE001 - the library raised where the reference tree does not
+        rec.violation(f"C05.history/PduHeader.{family(step) if step else start}/exception/{type(e).__name__}", case, repr(e), None,
+                      note=f"at action {step!r}; model={m}")
+    n = len(hist) + len(OBSERVERS)
+    rec.case(True, ops=n)
+    rec.states += 1
+    rec.transitions += n
+    rec.traces += 1
+    return n
+
+
+def run_histories(rec, start, bg, first, depth):
+    """every history of length <= depth whose first action is ACTIONS[first] (the empty history goes with first == 0)"""
+    rc, m0 = start_model(bg)
+    ref0 = model_ref(m0)
+    n = 0
+    if first == 0:
+        run_history(rec, start, bg, (), rc, m0, ref0)
+        n += 1
+    a0 = ACTIONS[first]
+    for length in range(0, depth):
+        for tail in itertools.product(ACTIONS, repeat=length):
+            run_history(rec, start, bg, (a0,) + tail, rc, m0, ref0)
+            n += 1
+    rec.count("histories", n)
+    rec.count(f"histories_from_{start}", n)
+    return n
+
+
+# --------------------------------------------------------------------------------------------- independence
+def produce(recipe):
+    """every way the library hands out a header / its octets for one recipe: [(subject, object, observe)]"""
+    r = U.norm(recipe)
+    ref = R.encode_header(r["cfg"], r["params"])
+    h = unit.build(recipe)
+    p = h.pack()
+    d = U.L.PduHeader.unpack(ref + TAIL)
+    q = d.pack()
+    d2 = U.L.PduHeader.unpack(bytearray(ref))
+    return [("PduHeader.__init__", h, obs_header), ("PduHeader.pack", p, bytes), ("PduHeader.unpack", d, obs_header),
+            ("PduHeader.pack", q, bytes), ("PduHeader.unpack", d2, obs_header)]
+
+
+def exercise(recipe):
+    """use the library on another header: build, pack, decode, read the lengths, then drive every public mutator of the
+    objects obtained (none of which is one of the held results)"""
+    gen = U.L.ByteFieldGenerator.from_int
+    r = U.norm(recipe)["cfg"]
+    for _, o, _ in produce(recipe):
+        if isinstance(o, (bytes, bytearray)):
+            if isinstance(o, bytearray):
+                for i in range(len(o)):  # the caller owns what pack() returned
+                    o[i] ^= 0xFF
+            continue
+        _ = (o.header_len, o.packet_len)
+        for attr, key, enum in FLAG_SETTERS:
+            setattr(o, attr, getattr(U.L, enum)(1 - r.get(key, 0)))
+        w, s = _next_width(r["idw"]), _next_width(_next_width(r["seqw"]))
+        o.set_entity_ids(gen(w, _idval(0x21, w)), gen(w, _idval(0xB1, w)))
+        o.transaction_seq_num = gen(s, _idval(0x81, s))
+        o.pdu_data_field_len = 0xFFFF ^ int(o.pdu_data_field_len)
+        _ = (o.pack(), o.header_len, o.packet_len)
+
+
+def neighbours(fl, idw, seqw):
+    """recipes that differ from (fl, idw, seqw, dlen 0x1234, default IDs) in exactly one field, the identical recipe (a second
+    decode of the very same octets must give an independent object) and the recipe that differs in every field"""
+    out = [("same", recipe_of(fl, idw, seqw, 0x1234))]
+    for i in range(7):
+        f2 = tuple(b ^ (1 if k == i else 0) for k, b in enumerate(fl))
+        out.append((f"flag{i}", recipe_of(f2, idw, seqw, 0x1234)))
+    out += [(f"idw{w}", recipe_of(fl, w, seqw, 0x1234)) for w in WIDTHS if w != idw]
+    out += [(f"seqw{w}", recipe_of(fl, idw, w, 0x1234)) for w in WIDTHS if w != seqw]
+    out.append(("dlen", recipe_of(fl, idw, seqw, 0xEDCB)))
+    out.append(("src", recipe_of(fl, idw, seqw, 0x1234, src=_idval(0x21, idw))))
+    out.append(("seq", recipe_of(fl, idw, seqw, 0x1234, seq=_idval(0x81, seqw))))
+    out.append(("dst", recipe_of(fl, idw, seqw, 0x1234, dst=_idval(0xB1, idw))))
+    w, s = _next_width(idw), _next_width(_next_width(seqw))
+    out.append(("all", recipe_of(tuple(1 - b for b in fl), w, s, 0xEDCB, _idval(0x21, w), _idval(0x81, s), _idval(0xB1, w))))
+    return out
+
+
+def alias_case(rec, ra, rb):
+    """hold everything the library hands out for header A, use the library on header B, re-observe A's results"""
+    case = {"kind": "alias", "a": ra, "b": rb}
+    rec.case(True, ops=30)
+    keeper = Keeper(rec, PROPERTY, depth=8)
+    for subject, obj, observe in produce(ra):
+        keeper.hold(subject, obj, observe, case)
+    exercise(rb)
+    keeper.recheck(case)
+    keeper.flush()
+
+
 def shards(tier):
     items = []
     for part in range(8):
@@ -224,6 +611,12 @@ def shards(tier):
     for part in range(4):
         items.append({"job": "decode", "part": part, "parts": 4})
     items.append({"job": "refuse", "n": _n(tier)})
+    for part in range(8):
+        items.append({"job": "alias", "part": part, "parts": 8})
+    for start in HISTORY_STARTS:
+        for bg in range(4):
+            for first in range(len(ACTIONS)):
+                items.append({"job": "history", "start": start, "bg": bg, "first": first, "depth": _depth(tier)})
     return items
 
 
@@ -231,7 +624,24 @@ def run_shard(item):
     rec = Rec(PROPERTY, item)
     seen = set()
     job = item["job"]
-    if job == "flags":
+    keeper = Keeper(rec, PROPERTY, depth=KEEP)  # every result is re-observed after the next case of the enumeration
+    if job == "history":
+        run_histories(rec, item["start"], item["bg"], item["first"], item["depth"])
+        rec.sample({"history": {"start": item["start"], "background": item["bg"],
+                                "actions": [ACTIONS[item["first"]], ACTIONS[-1], ACTIONS[0]][:item["depth"]]}}, limit=1)
+        return rec.result()
+    if job == "alias":
+        combos = [(fl, idw, seqw) for fl in FLAGS for idw in WIDTHS for seqw in WIDTHS]
+        combos = combos[len(combos) * item["part"] // item["parts"]: len(combos) * (item["part"] + 1) // item["parts"]]
+        n = 0
+        for fl, idw, seqw in combos:
+            ra = recipe_of(fl, idw, seqw, 0x1234)
+            for _, rb in neighbours(fl, idw, seqw):
+                alias_case(rec, ra, rb)
+                n += 1
+        rec.count("independence_pairs", n)
+        rec.sample({"independence_pair": {"held": recipe_of(*combos[0], 0x1234), "then_used_on": neighbours(*combos[0])[-1][1]}}, limit=1)
+    elif job == "flags":
         flags = FLAGS[len(FLAGS) * item["part"] // item["parts"]: len(FLAGS) * (item["part"] + 1) // item["parts"]]
         for fl in flags:
             for idw in WIDTHS:
@@ -239,7 +649,7 @@ def run_shard(item):
                     for dlen in D.edge(16):
                         for j in range(4):
                             header_case(rec, seen, recipe_of(fl, idw, seqw, dlen, id_background(j, idw), id_background(j, seqw),
-                                                             id_background(j + 1, idw) if j else None))
+                                                             id_background(j + 1, idw) if j else None), keeper=keeper)
         rec.count("flag_width_headers", len(flags) * 16 * len(D.edge(16)) * 4)
         r = recipe_of(flags[-1], 4, 2, 0x5555)
         rec.sample({"recipe": r, "expected_octets": unit.ref(r)}, limit=1)
@@ -248,7 +658,7 @@ def run_shard(item):
         lo, hi = 65536 * item["part"] // item["parts"], 65536 * (item["part"] + 1) // item["parts"]
         edge16 = set(D.edge(16))
         for dlen in range(lo, hi):
-            header_case(rec, seen, recipe_of(fl, idw, seqw, dlen, src, seq, dst), dup=dlen in edge16)
+            header_case(rec, seen, recipe_of(fl, idw, seqw, dlen, src, seq, dst), dup=dlen in edge16, keeper=keeper)
         rec.count("data_field_length_values_swept", hi - lo)
         r = recipe_of(fl, idw, seqw, lo + 0x0102, src, seq, dst)
         rec.sample({"recipe": r, "expected_octets": unit.ref(r)}, limit=1)
@@ -264,7 +674,7 @@ def run_shard(item):
         for v in vals:
             ids = dict(others)
             ids[field] = v
-            header_case(rec, seen, recipe_of(fl, idw, seqw, dlen, ids["src"], ids["seq"], ids["dst"]), dup=v == bgval)
+            header_case(rec, seen, recipe_of(fl, idw, seqw, dlen, ids["src"], ids["seq"], ids["dst"]), dup=v == bgval, keeper=keeper)
         rec.count(f"{field}_width{width}_values_swept", len(vals))
         ids = dict(others)
         ids[field] = vals[len(vals) // 2]
@@ -274,7 +684,7 @@ def run_shard(item):
         lo, hi = 256 * item["part"] // item["parts"], 256 * (item["part"] + 1) // item["parts"]
         for o0 in range(lo, hi):
             for o3 in range(256):
-                check_decode_pair(rec, o0, o3)
+                check_decode_pair(rec, o0, o3, keeper)
         rec.count("fixed_part_pairs", (hi - lo) * 256)
         rec.sample({"decode_pair": {"octet0": lo, "octet3": 0x13, "tail": TAIL}}, limit=1)
     elif job == "refuse":
@@ -289,18 +699,27 @@ def run_shard(item):
             check_refusal(rec, "setter-dlen", v)
         rec.count("refusal_cases", 24 + 2 * len(vals))
         rec.sample({"refuse": "pdu_data_field_len", "first": vals[:3], "count": len(vals)}, limit=1)
+    keeper.recheck({"kind": "end-of-shard"})
+    keeper.flush()
+    # engine V jobs: a state is a distinct case, a transition a compared library operation, a trace an executed case
+    rec.states, rec.transitions, rec.traces = rec.nontrivial, rec.ops, rec.evaluations
     return rec.result()
 
 
 def replay(case):
     rec = Rec(PROPERTY, "replay")
     if case["kind"] == "pdu":
-        rec.case(True, ops=12)
+        rec.case(True, ops=15)
         U.judge(rec, PROPERTY, None, unit, case["recipe"], "class", True, evaluate_header)
     elif case["kind"] == "pair":
         check_decode_pair(rec, case["o0"], case["o3"])
     elif case["kind"] == "refusal":
         check_refusal(rec, case["how"], int(case["a"]), None if case["b"] is None else int(case["b"]))
+    elif case["kind"] == "history":
+        rc, m0 = start_model(case["bg"])
+        run_history(rec, case["start"], case["bg"], tuple(case["actions"]), rc, m0, model_ref(m0))
+    elif case["kind"] == "alias":
+        alias_case(rec, case["a"], case["b"])
     return rec.result()
 
 
@@ -312,4 +731,9 @@ def finalize(tier, agg):
         "id_value_sweeps": {k: v for k, v in c.items() if k.endswith("_values_swept") and k[:3] in ("src", "seq", "dst")},
         "fixed_part_pairs_decoded_or_refused": c.get("fixed_part_pairs", 0),
         "refusal_cases": c.get("refusal_cases", 0),
+        "history_depth": _depth(tier), "history_alphabet": ACTIONS, "history_start_states": len(HISTORY_STARTS) * 4,
+        "histories_executed": c.get("histories", 0),
+        "independence_pairs": c.get("independence_pairs", 0),
+        "independence_results_held": c.get("independence_results_held", 0),
+        "independence_reobservations": c.get("independence_reobservations", 0),
     }
